@@ -90,8 +90,11 @@ func (c *Compiler) getVariables(t *ast.Task, call *Call, evaluateShVars bool) (*
 	}
 	rangeFunc := getRangeFunc(c.Dir)
 
-	var taskRangeFunc func(k string, v ast.Var) error
-	if t != nil {
+	// getTaskRangeFunc returns the range function for variables that are
+	// evaluated in the task's directory. The directory may be a template over
+	// variables, so it is computed from the variables known at the point of
+	// use (global variables first, later also the variables of the call).
+	getTaskRangeFunc := func() (func(k string, v ast.Var) error, error) {
 		// NOTE(@andreynering): We're manually joining these paths here because
 		// this is the raw task, not the compiled one.
 		cache := &templater.Cache{Vars: result}
@@ -100,7 +103,7 @@ func (c *Compiler) getVariables(t *ast.Task, call *Call, evaluateShVars bool) (*
 			return nil, err
 		}
 		dir = filepathext.SmartJoin(c.Dir, dir)
-		taskRangeFunc = getRangeFunc(dir)
+		return getRangeFunc(dir), nil
 	}
 
 	for k, v := range c.TaskfileEnv.All() {
@@ -119,6 +122,10 @@ func (c *Compiler) getVariables(t *ast.Task, call *Call, evaluateShVars bool) (*
 				return nil, err
 			}
 		}
+		taskRangeFunc, err := getTaskRangeFunc()
+		if err != nil {
+			return nil, err
+		}
 		for k, v := range t.IncludedTaskfileVars.All() {
 			if err := taskRangeFunc(k, v); err != nil {
 				return nil, err
@@ -134,6 +141,10 @@ func (c *Compiler) getVariables(t *ast.Task, call *Call, evaluateShVars bool) (*
 		if err := rangeFunc(k, v); err != nil {
 			return nil, err
 		}
+	}
+	taskRangeFunc, err := getTaskRangeFunc()
+	if err != nil {
+		return nil, err
 	}
 	for k, v := range t.Vars.All() {
 		if err := taskRangeFunc(k, v); err != nil {
@@ -156,13 +167,16 @@ func (c *Compiler) HandleDynamicVar(v ast.Var, dir string, e []string) (string, 
 	if c.dynamicCache == nil {
 		c.dynamicCache = make(map[string]string, 30)
 	}
-	if result, ok := c.dynamicCache[*v.Sh]; ok {
-		return result, nil
-	}
-
 	// NOTE(@andreynering): If a var have a specific dir, use this instead
 	if v.Dir != "" {
 		dir = v.Dir
+	}
+
+	// The result of a command depends on the directory and the environment
+	// it runs in, not only on its text.
+	cacheKey := strings.Join(append([]string{*v.Sh, dir}, e...), "\x00")
+	if result, ok := c.dynamicCache[cacheKey]; ok {
+		return result, nil
 	}
 
 	var stdout bytes.Buffer
@@ -182,7 +196,7 @@ func (c *Compiler) HandleDynamicVar(v ast.Var, dir string, e []string) (string, 
 	result := strings.TrimSuffix(stdout.String(), "\r\n")
 	result = strings.TrimSuffix(result, "\n")
 
-	c.dynamicCache[*v.Sh] = result
+	c.dynamicCache[cacheKey] = result
 	c.Logger.VerboseErrf(logger.Magenta, "task: dynamic variable: %q result: %q\n", *v.Sh, result)
 
 	return result, nil
